@@ -678,6 +678,51 @@ func genBig(g *hx.Gen) {
 			emitBig(g, gx.Union(sparseRandom(r, n-n/4, 3), gx.Union(gx.Empty(2), sparseRandom(r, n/4-2, 2))), nil, true, 3, 2, true, g.Pick(2, 3), false)
 		}
 	}
+	// ---- the dense regime at the same sizes: complements of the sparse families and extremal
+	// graphs at the edge-count thresholds of the classical "must be connected / must contain a
+	// cycle / must be 2-connected" bounds: K_{n-1}+K_1 (the densest disconnected graph), K_n minus
+	// an edge, K_n minus a star (a pendant vertex on K_{n-1}), K_{n-2}+K_2, K_a+K_b, complete
+	// bipartite and its complement, complements of path / cycle / perfect matching / star.  The
+	// cycle and induced-path counts explode here, so only the bounded ones are called
+	// (NumberOfCycles not at all; induced cycles up to 3, induced paths up to 1).
+	denseSizes := []int{15, 16, 17, 18, 31, 32, 33}
+	if g.Thorough() {
+		denseSizes = append(denseSizes, 20, 24, 47, 48, 63, 64, 65)
+	}
+	for _, n := range denseSizes {
+		plus := func(a, b *gx.G) *gx.G { return gx.Union(a, b) }
+		minusStar := gx.Complete(n - 1)
+		pend := plus(minusStar, gx.Empty(1))
+		pend.Add(n-1, r.Intn(n-1))
+		kme := gx.Complete(n).Complement() // empty
+		kme.Add(r.Intn(n/2), n/2+r.Intn(n-n/2))
+		match := gx.Empty(n)
+		for i := 0; i+1 < n; i += 2 {
+			match.Add(i, i+1)
+		}
+		a := 2 + r.Intn(n-3)
+		list := []*gx.G{
+			plus(gx.Complete(n-1), gx.Empty(1)),
+			pend,
+			kme.Complement(),
+			plus(gx.Complete(n-2), gx.Complete(2)),
+			plus(gx.Complete(a), gx.Complete(n-a)),
+			gx.Multipartite([]int{a, n - a}),
+			gx.Multipartite([]int{1, 1, n - 2}),
+			gx.Path(n).Complement(),
+			gx.Cycle(n).Complement(),
+			match.Complement(),
+			gx.Star(n).Complement(),
+			gx.Complete(n),
+		}
+		for i, h := range list {
+			if !g.Thorough() && i >= 4 && r.Intn(3) != 0 {
+				continue
+			}
+			emitBig(g, h, nil, false, 3, 1, true, 2, false)
+		}
+	}
+	g.Note("dense regime: K_{n-1}+K_1, pendant on K_{n-1}, K_n-e, K_{n-2}+K_2, K_a+K_b, complete bi/tripartite, complements of path/cycle/matching/star, K_n at n = 15..18, 31..33 (thorough to 65)")
 	// grids and hypercubes at the thresholds
 	for _, ab := range [][2]int{{4, 4}, {4, 8}, {3, 11}, {8, 8}, {5, 13}, {7, 10}} {
 		fam([]int{5, ab[0], ab[1]}, false, 4, 2)
